@@ -252,6 +252,8 @@ case("C18", "C18-b-noncapture", "benign", "filters wrapped in a non-capturing gr
 
 case("C18", "C18-seed2", "mutant", "seeded: platform digest cached under the index digest alone",
      patch="seeded/C18-2/patch.diff", expect=[("C18.R4", "getPlatformDigest", "store into cache")])
+case("C15", "C15-seed4", "mutant", "seeded: regctl ref retries a refused argument with the host parser",
+     patch="seeded/C15-4/patch.diff", expect=[("C15.R7", "runRef", "parse by New")])
 case("C18", "C18-seed3", "mutant", "seeded: catalog paging helper returns the filtered page; end test and marker computed from it",
      patch="seeded/C18-3/patch.diff", expect=[("C18.R6", "processRegistry", "marker pager")])
 case("C18", "C18-seed4", "mutant", "seeded: source tag listing shared between entries of one pass while filterList blanks rejected elements in place",
@@ -378,6 +380,16 @@ case("C16", "C16-m-alias", "mutant", "aarch64 no longer mapped",
 case("C16", "C16-m-idem", "mutant", "armhf mapped to arm with an empty variant (which normalises again to v7)",
      edits=[("types/platform/platform.go", "\tcase \"armhf\":\n\t\tp.Architecture = \"arm\"\n\t\tp.Variant = \"v7\"", "\tcase \"armhf\":\n\t\tp.Architecture = \"arm\"\n\t\tp.Variant = \"\"")],
      expect=[("C16.R1", "normalize", "")])
+case("C16", "C16-seed1", "mutant", "seeded: DescriptorListSearch returns at the first entry that Match accepts",
+     patch="seeded/C16-1/patch.diff", expect=[("C16.R3", "DescriptorListSearch", "selection loop scans the whole list")])
+case("C16", "C16-m-staleprev", "mutant", "the kept entry is updated but the previous platform is not",
+     edits=[("types/descriptor/descriptor.go", "\t\t\tret = d\n\t\t\tretPlat = *d.Platform\n", "\t\t\tret = d\n")],
+     expect=[("C16.R4", "DescriptorListSearch", "best-so-far update")])
+case("C16", "C16-m-swapped", "mutant", "Better called with previous and candidate swapped",
+     edits=[("types/descriptor/descriptor.go", "comp.Better(*d.Platform, retPlat)", "comp.Better(retPlat, *d.Platform)")],
+     expect=[("C16.R4", "DescriptorListSearch", "best-so-far update")])
+case("C16", "C16-b-indexloop", "benign", "selection loop written with an index",
+     edits=[("types/descriptor/descriptor.go", "\tfor _, d := range dl {\n\t\tif d.Platform == nil {\n\t\t\tcontinue\n\t\t}\n\t\tif comp.Better(*d.Platform, retPlat) {", "\tfor i := 0; i < len(dl); i++ {\n\t\td := dl[i]\n\t\tif d.Platform == nil {\n\t\t\tcontinue\n\t\t}\n\t\tif comp.Better(*d.Platform, retPlat) {")])
 case("C16", "C16-b-ifform", "benign", "macos alias written as an if statement",
      edits=[("types/platform/platform.go", "\tswitch p.OS {\n\tcase \"macos\":\n\t\tp.OS = \"darwin\"\n\t}\n", "\tif p.OS == \"macos\" {\n\t\tp.OS = \"darwin\"\n\t}\n")])
 
